@@ -83,6 +83,8 @@ def run_case(ctx, case, confirm=False):
     model, edits, mode, jobs = case["model"], case["edits"], case["mode"], case["jobs"]
     if case.get("toolchains") is not None:
         model = projgen.add_toolchains(model, case["toolchains"])
+    if case.get("variants"):
+        model = projgen.add_variants(model, case["variants"])
     base = ctx.tmpdir()
     W = os.path.join(base, "w")
     X = os.path.join(base, "elsewhere", "deeper", "x")
@@ -172,6 +174,7 @@ def case_st(quick):
         "mode": st.sampled_from(["dev", "dev", "build"]),
         "jobs": st.sampled_from([None, None, 2, 4]),
         "toolchains": st.sampled_from([None, None, None, 0, 1, 2, 3, 4, 5]),
+        "variants": st.sampled_from([None, None, None, 3, 4]),
     })
 
 def check(ctx, case):
